@@ -105,6 +105,10 @@ func (pl ProofList) Verify(publicKeys []*gabikeys.PublicKey, context, nonce *big
 		if !proof.VerifyWithChallenge(publicKeys[i], expectedChallenge) {
 			return false
 		}
+		// A proof without a (hidden) secret key cannot be linked to the other proofs
+		if proof.SecretKeyResponse() == nil {
+			return false
+		}
 		if len(keyshareServers) > 0 {
 			kss = keyshareServers[i]
 		}
